@@ -24,7 +24,7 @@ cp "$D/${M}_demo_test.go.txt" zz_${M}_demo_test.go
 echo "mutant + demo:     $(go test -vet=off -count=1 ./... 2>&1 | grep -E '^(ok|FAIL|---|panic|fatal)' | head -3 | tr '\n' ' ')"
 rm -f zz_${M}_demo_test.go
 for Q in $P $EXTRA; do
-  OUT=$(VERIF_REPO=$W VERIF_DIR=$V /verif/bin/gosx check $Q --tier $TIER 2>&1); RC=$?
+  OUT=$(VERIF_REPO=$W VERIF_DIR=$V ${GOSX:-/verif/bin/gosx} check $Q --tier $TIER 2>&1); RC=$?
   echo "check $Q ($TIER): exit=$RC  $(echo "$OUT" | grep -c '^VIOLATION') violations, $(echo "$OUT" | grep -c '^INCONCLUSIVE') inconclusive"
   echo "$OUT" | grep -E "^  key=" | head -5
   echo "$OUT" | grep -E "^INCONCLUSIVE" | head -2 | cut -c1-300
